@@ -447,6 +447,9 @@ class Executor:
             return self.constant(s[6:].strip())
         if re.match(r"^_\d+$", s) or s.startswith("("):
             return self.read_place(f, s, env)
+        if re.match(r"^[A-Z]\w*$", s):
+            # a field-less enum variant written bare (e.g. `InvalidInput`)
+            return ("adt", s, s, {})
         if "::" in s and not s.startswith(("copy ", "move ")):
             # a function item (zero-sized) passed as an argument
             return ("opaque", "0", "fn " + s)
